@@ -183,6 +183,9 @@ def enum_structural():
                 for c in (None, 1, -1, 2, -2, 3, -3):
                     yield ('slice',), {'op': 'slice', 'form': {'k': 'slice', 'a': a, 'b': b, 'c': c},
                                        'in': _src(kind, 1, 5)}
+        if kind == 'list':
+            yield ('intersperse_long',), {'op': 'intersperse', 'how': 'method',
+                                          'ins': [_src(kind, 1, 33000), _src(kind, 2, 3)]}
         # long sources: index tables / arithmetic that only break beyond 255 (or at odd sizes)
         for n in (256, 300):
             big = _src(kind, 1, n)
